@@ -5,6 +5,6 @@ cd "$(dirname "$0")"
 unset GOSUMDB GOTOOLCHAIN
 export GOFLAGS=-mod=mod GOPROXY=off
 mkdir -p bin work evidence replay
-( cd harness && go build -o ../bin/gtverif ./cmd/gtverif )
+( cd harness && go build -tags verif -o ../bin/gtverif ./cmd/gtverif )
 ./bin/gtverif build
 echo setup ok
